@@ -84,7 +84,7 @@ Proof.
   intros d lks. cbn [config_run P_config_steps].
   pose proof (decode_no_panic true d) as Hnp.
   assert (Hrej : doc_rejectable d = true -> is_err (decode true d) = true).
-  { destruct d; cbn; try discriminate; reflexivity. }
+  { destruct d as [| |n|d1|d2|[|]]; cbn; try discriminate; reflexivity. }
   destruct (decode true d) as [c|e|] eqn:E; [| |congruence].
   - cbn [is_panic negb andb is_err]. unfold lenN. rewrite !map_length, N.eqb_refl.
     assert (Hsafe : forallb (fun o : outcome (list N) cfg_err => negb (is_panic o))
